@@ -211,7 +211,8 @@ prop("C20", [
      "args": {"quick": ["--timeout-ms=60000", "--deadline-s=170"],
               "thorough": ["--thorough=1", "--tab-log2=24", "--timeout-ms=600000", "--deadline-s=1500"]}},
 ],
-    rule="one case = a block of inputs: every byte string of length 0..2, length 3..4 over 16 boundary bytes, "
+    rule="one case = a block of inputs: every byte string of length 0..3 (all 16.8 M triples), length 3..4 over 16 boundary bytes, "
+         "every 4-character text over the 64 alphabet characters, '=' and '!' (19.0 M) through the decoder against the strict reference, "
          "b^n for all 256 b and lengths 0..300 plus rolling patterns (encode = own RFC 4648 encoder, decode(encode(x)) "
          "= x); 10 829 user names x 17 passwords through Authorization::setBasicUserPassword / getBasicUser / "
          "getBasicPassword; every string of length <= 6 over {A,b,9,+,/,=,!,0x80} and damaged valid encodings through "
@@ -219,7 +220,7 @@ prop("C20", [
          "poisoned; non-trivial = inputs other than the empty string",
     assumptions=COMMON_ASSUME + ["decoder leniencies that do not touch memory outside the input (leading-run decoding, "
                                  "non-zero pad bits) are recorded as outcomes, not violations"],
-    bounds={"quick": "lengths 0..300, invalid strings <= 6", "thorough": "lengths 0..1200, invalid strings <= 7"})
+    bounds={"quick": "all byte strings <= 3, all 4-character texts over 66 symbols, lengths 0..300, invalid strings <= 6", "thorough": "lengths 0..1200, invalid strings <= 7"})
 
 prop("C16", [
     {"name": "c16_headers", "sources": ["c16_headers.cc"], "flavour": "asan",
